@@ -123,6 +123,23 @@ def load_cases(cfg, timeout=7200):
     return meta
 
 
+def rand_meta(tier):
+    """the random-workspace table (spec/RandomLayouts.tla over tools/randlayouts.py): same case lines, same judges"""
+    if os.environ.get("VERIF_REPLAY"):
+        return None
+    import randlayouts
+    return randlayouts.load_cases(tier)
+
+
+def drive_rand(tier, build, judge, V):
+    m = rand_meta(tier)
+    if m is None:
+        return 0
+    n = drive(m, build, judge)
+    V.notes["random_workspaces"] = {"cases": n, "tlc_states": m["distinct"], "tlc_wall_s": m["wall_s"], "cached": m.get("cached", False)}
+    return n
+
+
 def shape_key(case):
     return json.dumps(case["shape"], sort_keys=True)
 
@@ -229,6 +246,8 @@ def check_c01(tier):
             V.sample({"shape": ctx.case["shape"], "order": ctx.case["order"], "queries": len(answers)})
 
     replayed = drive(meta, build, judge, only=replay_filter())
+    # random workspaces: the first column of every usage token (every column is probed on the structured table above)
+    replayed += drive_rand(tier, lambda ctx: goto_ops(ctx, ctx.case["goto"], all_cols=False), judge, V)
     if not os.environ.get("VERIF_REPLAY"):
         import binlayouts
         nb, _ = binlayouts.run(V, tier, {"c01"})
@@ -237,6 +256,7 @@ def check_c01(tier):
     return V.finish(
         coverage_extra=tlc_cov(meta, replayed),
         rule="LSP tier: sampled layouts materialised on disk, textDocument/definition of the real binary at every usage. "
+             "Random tier: seeded random workspaces (spec/RandomLayouts.tla) judged by the same two layers. "
              "TLC enumerates every (layout, registration order) of spec/Layouts.tla; each is replayed in memory "
              "on the real library and find_fixture_definition is asked at every column of every usage token; "
              "non-trivial = at least two definitions of the queried name compete; distinct by (layout, order, usage)",
@@ -421,7 +441,9 @@ def check_c04(tier):
                 want = set()
                 per = {}
                 for slot, idx, it in ctx.all_defs():
+                    # the entry's autouse flag is the one of its LAST definition (all_defs yields them in source order)
                     per.setdefault((slot, it["name"]), [0, it, slot])
+                    per[(slot, it["name"])][1] = it
                     per[(slot, it["name"])][0] += sum(1 for u, d in goto_actual.items() if d == (slot, idx))
                 for (slot, name), (cnt, it, _) in per.items():
                     if cnt == 0 and slot not in ("tp", "tp2", "tpi") and not it["autouse"]:
@@ -440,6 +462,7 @@ def check_c04(tier):
 
     replayed = drive(meta, build, judge, only=replay_filter())
     replayed += drive(meta_chain, build, judge, only=replay_filter())
+    replayed += drive_rand(tier, build, judge, V)
     if not os.environ.get("VERIF_REPLAY"):
         import binlayouts
         nb, _ = binlayouts.run(V, tier, {"c04"})
@@ -572,6 +595,7 @@ def check_c05(tier):
             V.sample({"shape": case["shape"], "order": case["order"], "views": len(avail), "rff": len(rff)})
 
     replayed = drive(meta, build, judge, only=replay_filter())
+    replayed += drive_rand(tier, build, judge, V)
     if not os.environ.get("VERIF_REPLAY"):
         import binlayouts
         nb, _ = binlayouts.run(V, tier, {"c05"})
@@ -647,6 +671,7 @@ def check_c08(tier):
         g.append((case["order"], snap, blames, ctx.texts()))
 
     replayed = drive(meta, build, judge, only=None)
+    replayed += drive_rand(tier, build, judge, V)
     for sk, runs in groups.items():
         V.count(len(runs))
         if len(runs) >= 2:
@@ -750,4 +775,5 @@ def check_c20_library(V, tier):
             V.sample({"shape": case["shape"], "order": case["order"], "unused_expected": row["py"]})
 
     replayed = drive(meta, build, judge, only=replay_filter())
+    replayed += drive_rand(tier, build, judge, V)
     return meta, replayed
